@@ -210,6 +210,16 @@ package s2
 //@   ensures [moved] result <==> old(s.position) > 0
 //@   ensures [pos] vcIterAt(s) && (result ==> s.position == old(s.position)-1) && (!result ==> s.position == old(s.position))
 
+// on a fresh index Begin only positions the iterator (a stale index is rebuilt first: C13)
+//@ func (s *ShapeIndexIterator) Begin()
+//@   requires s != nil && s.index != nil && s.index.status == fresh
+//@   modifies s.position, s.id, s.cell
+//@   ensures vcIterAt(s) && s.position == 0
+
+//@ func (s *ShapeIndexIterator) clone() *ShapeIndexIterator
+//@   requires s != nil
+//@   ensures result != nil && vcFresh(result) && result.index == s.index && result.position == s.position && result.id == s.id && result.cell == s.cell
+
 //@ func (s *ShapeIndexIterator) End()
 //@   requires s != nil && s.index != nil
 //@   modifies s.position, s.id, s.cell
